@@ -73,6 +73,14 @@ def run(ck, rng, tier):
                 kind, cond = "small_pivot", 10.0
                 M = structured(rng, n, "general", 10.0)
                 M[0, 0] = rng.choice((-1, 1)) * rng.choice((5e-4, 2e-4, 9e-4))
+        if c % 9 == 2 and n >= 2:
+            # a system in extremely small units (1e-170) whose leading entry is zero: a row exchange is needed, squares of the
+            # entries underflow
+            lse_only, kind, cond = True, "tiny_units_zero_lead", 10.0
+            M = structured(rng, n, "zero_lead", 10.0) * 1e-170
+        if c == 0:
+            n, kind, cond, lse_only = 1, "general", 1.0, False
+            M = np.array([[rng.choice((-2.5, 3.0, 0.75))]])
         if (abs(np.linalg.det(M)) < 1e-12 and not lse_only) or np.linalg.cond(M) > 1e7:
             continue
         if not lse_only:
